@@ -51,6 +51,10 @@ CHECKS = {
          'For every corpus program: every token gap x permitted insertions, line breaks where the statement allows them, comments at line ends, blank lines, CRLF; the reflection dump of the real AST (positions removed) must equal the original. For diagnostics: every single-token deletion/duplication/substitution and every prefix; each parse/compile error must point inside the source, quote that line verbatim, and render without failing.',
          'Trusted: the harness renderer knows the syntactic role of each gap (line breaks are only inserted after commas of list/map/set/argument lists, symbolic binary operators and pipes). Two known findings (positions at end of input).',
          'E5 enum over E1 corpus', '4 C20'),
+ 'C18': ('model_checking', 'explicit enumeration of all piece histories up to a depth on one compiler + one VM driven as the REPL does, against a reference session model',
+         'Every sequence of 1..4 (thorough 5) pieces over an 18-piece alphabet (definitions, uses, loop, closure, constant; rejected pieces: undefined name, constant assignment, redeclaration, rejected piece with side-effecting prefix, syntax error; failing pieces, one mid-piece) is fed to one compiler and one VM exactly as cmd/risor/repl does; per-piece status, value and output and the final globals must equal the reference session model (rejected pieces have no effect, failed pieces keep their effects up to the failure); a 1200-input session must not exhaust the VM.',
+         'Trusted: the session model in internal/refsem (Session). The value of a piece that ends in a named function definition is not compared.',
+         'E4 histbfs + E1 refsem', '4 C18'),
  'C19': ('exploration', 'bounded-exhaustive enumeration of argument tuples over boundary pools for every discovered wrapper function, compared with the direct Go call; codec round trips and all short malformed inputs',
          'Every function/method of strings, strconv, math, bytes, base64, filepath, regexp, json, string and byte_slice methods (discovered from the live modules; an unknown function is an engine error) is called with every argument tuple over its pools through the object API and through scripts and compared with the Go standard library; every codec round-trips every pool value and rejects exactly the malformed inputs (all strings <= 4 over a 6-symbol alphabet) that Go rejects; json codec and json module must agree.',
          'Trusted: the table of Go closures in internal/c19/table.go. Four known findings (json codec vs module on byte_slice and nil; invalid UTF-8 through encoding/json).',
